@@ -115,7 +115,7 @@ def sites_of(doc, objs):
         if not isinstance(s, dict) or "k" not in s or id(s) in seen:
             return
         seen.add(id(s))
-        if id(s) in objs and s["k"] in SIG:
+        if id(s) in objs and objs.get("__specs__", {}).get(id(s)) is s and s["k"] in SIG:
             out.append(s)
         for v in list(s.get("kw", {}).values()) + [s.get("items"), s.get("element")] + list(s.get("elements", [])):
             for x in (v if isinstance(v, list) else [v]):
@@ -183,6 +183,8 @@ def apply_op(op):
     elif kind == "unset":
         kw = op[3]
         del s["kw"][kw]
+        if kw == "description" and s["k"] == "Obj":
+            s["doc"] = None        # the class statement's docstring is what an unset description would otherwise fall back to
         setattr(live, kw, unset_live(kw))
     elif kind == "set_props":
         new = op[3]
@@ -243,7 +245,14 @@ def run(tier, seed, replay=None):
         elif (root == fresh) is not True or (fresh == root) is not True:
             why = "the reconfigured live element does not equal a freshly constructed element with the same configuration"
         if why:
-            res.violation({"property": "C13", "kind": "oracle", "doc_now": doc, "value": v, "trace": trace, "what": why})
+            diff = None
+            try:
+                from canon import canon_elem
+                from props.c06 import first_diff
+                diff = first_diff(canon_elem(root), canon_elem(fresh))
+            except BaseException as exc:  # noqa
+                diff = "n/a (%s)" % type(exc).__name__
+            res.violation({"property": "C13", "kind": "oracle", "doc_now": doc, "value": v, "trace": trace, "what": why, "first_difference": diff})
         return why is None
 
     def record_wb(root, classes, doc):
